@@ -259,6 +259,20 @@ impl<M: GuestAddressSpace> VringState<M> {
         Ok(self.enabled)
     }
 
+    /// Consume the kick and tell whether the vring has to be processed, as a single step under
+    /// the caller's lock: the kick is consumed if and only if the vring is enabled and started.
+    /// A kick that is not consumed stays pending in its descriptor.
+    pub(crate) fn take_kick(&self) -> io::Result<bool> {
+        let active = self.enabled && self.queue.ready();
+        if active {
+            if let Some(kick) = &self.kick {
+                kick.consume()?;
+            }
+        }
+
+        Ok(active)
+    }
+
     /// Set `EventFd` for call.
     fn set_call(&mut self, file: Option<File>) {
         // SAFETY: see comment in set_kick()
